@@ -240,6 +240,13 @@ def extra_coverage(merged) -> dict:
     return {'fresh_process': 'every reference decode ran alone in its own fork of a never-decoding template process (vlib/forkiso.py)'}
 
 
+def _flow(afi: int) -> str:
+    from vlib.refwire import build
+
+    attrs = build.attribute(0x40, 1, b'\x00') + build.attribute(0x40, 2, b'') + build.attribute(0x40, 5, b'\x00\x00\x00\x64')
+    return build.update_body(b'', attrs + build.attribute(0x80, 14, bytes([0, afi, 133, 0, 0]) + bytes.fromhex('05038106' + '0b812e')), b'').hex()
+
+
 def fixed_cases() -> list:
     """the smallest dual-reading pair in both orders, the same with something in between, and the two route-refresh codes"""
     from vlib.refwire import build
@@ -261,6 +268,9 @@ def fixed_cases() -> list:
         {'messages': [[0, OPEN, open_rfc], [2, OPEN, open_cisco], [0, NOTIFICATION, '0602']], 'motifs': ['fixed:route-refresh-codes']},
         {'messages': [[0, UPDATE, aigp], [2, UPDATE, aigp]], 'motifs': ['fixed:aigp-accepted-then-not']},
         {'messages': [[2, UPDATE, aigp], [0, UPDATE, aigp]], 'motifs': ['fixed:aigp-refused-then-accepted']},
+        # one FlowSpec rule (protocol / next-header =tcp, dscp / traffic-class =46) announced for IPv4 then IPv6 on the flow session, and back
+        {'messages': [[3, UPDATE, _flow(1)], [3, UPDATE, _flow(2)], [3, UPDATE, _flow(1)]], 'motifs': ['fixed:flow-v4-v6-v4']},
+        {'messages': [[3, UPDATE, _flow(2)], [3, UPDATE, _flow(1)]], 'motifs': ['fixed:flow-v6-v4']},
         # one attribute block, first with withdrawn routes beside the announce, then without, and the other way round
         {'messages': [[0, UPDATE, build.update_body(bytes([24, 10, 0, 2]), block, bytes([24, 10, 0, 1])).hex()], [0, UPDATE, plain]], 'motifs': ['fixed:withdrawn-then-not']},
         {'messages': [[0, UPDATE, plain], [0, UPDATE, build.update_body(bytes([24, 10, 0, 2]), block, bytes([24, 10, 0, 1])).hex()]], 'motifs': ['fixed:not-then-withdrawn']},
